@@ -2,13 +2,15 @@
    Proved: the ids Pack walks are the unique ascending arrangement of the presence set, whatever order the map is
    enumerated in (sort_z_perm), likewise the subfield tags (C09_sort_perm/sorted), so the model's Pack/JSON are
    functions of the logical content; Pack and JSON leave values and presence unchanged (only the bookkeeping id 1
-   may be added); the padders and the LBCD encoder build their results in fresh buffers (C20_no_write); Clone of an
+   may be added), and Pack / MarshalJSON are repeatable: packing the object a Pack leaves behind gives the same outcome
+   and the same object (C15_pack_twice, C15_json_twice); the padders and the LBCD encoder build their results in fresh buffers (C20_no_write); Clone of an
    in-domain message succeeds and the clone - obtained by unpacking the original's bytes into a new object - holds the
    same MTI, bitmap, populated set and content and packs to the very same bytes (C15_clone). Absence of shared
    mutable state between a clone and its original, and writes into caller-owned slices, are properties of Go pointers
    the functional model cannot express: they are checked by the oracle on the library (mutating either side,
    sentinel-filled spare capacity) (partial). *)
 From Coq Require Import Sorting.Permutation.
+From Iso Require Import Proofs.PackTwice.
 From Iso Require Import Model.Base Model.Spec Model.Field Model.Message Model.Json Model.MessageOps Proofs.BaseLemmas Proofs.StateProofs Proofs.MessageRoundtrip Proofs.CloneProofs.
 
 Theorem C15_order_independent : forall l1 l2, Permutation l1 l2 -> sort_z l1 = sort_z l2.
@@ -28,6 +30,17 @@ Print Assumptions C15_pack_pure.
 Theorem C15_json_pure : forall S m, fst (m_json S m) = fst (m_pack S m).
 Proof. intros S m. apply m_json_total. Qed.
 Print Assumptions C15_json_pure.
+
+(* Pack is repeatable: packing the object a Pack leaves behind gives the same outcome (the same bytes, or the same
+   failure) and the same object; likewise MarshalJSON. Together with C15_pack_pure: calling Pack or MarshalJSON any number
+   of times between other operations changes nothing those operations or a later Pack can see. *)
+Theorem C15_pack_twice : forall S m, m_pack S (fst (m_pack S m)) = m_pack S m.
+Proof. exact m_pack_twice. Qed.
+Print Assumptions C15_pack_twice.
+
+Theorem C15_json_twice : forall S m, m_json S (fst (m_json S m)) = m_json S m.
+Proof. exact m_json_twice. Qed.
+Print Assumptions C15_json_twice.
 
 Theorem C15_clone : forall S m m' b, msg_coherent S -> msg_in_dom S m -> m_pack S m = (m', Ok b) ->
   exists c1 c2, m_clone S m = (m', Ok c2) /\ c2 = fst (m_pack S c1) /\ msg_equiv S m' c1 /\ snd (m_pack S c1) = Ok b.
